@@ -422,7 +422,7 @@ def run_maps(v, desc, scratch, keys):
     ctx = multiprocessing.get_context("fork")
     resources_scenario(v, scratch, desc["start"])
     for i in range(desc["start"], desc["start"] + desc["n"]):
-        case = mapgen.case_from_seed(desc["seed"], i, max_funcs=3)
+        case = mapgen.case_from_seed(desc["seed"], i, max_funcs=3, allow_bound=(i % 4 == 1))
         rng = random.Random(f"c09m:{desc['seed']}:{i}")
         if i % 4 == 3:
             case = whole_upstream_case(rng)
@@ -538,6 +538,37 @@ def run_maps(v, desc, scratch, keys):
                             if probes.render(res2[o].output) != probes.render(env[o]):
                                 v.bad(f"cached-map-value-on-repeat/{mode}/{ct}", f"{o} differs from the denotation on the repeated cached map", **w)
                                 break
+                # a bound value of the SAME pipeline object is changed (public update_bound) and it maps the same inputs again
+                # into a fresh folder: what the now-warm cache serves must be the denotation of the pipeline as it is now
+                bfs = [(f_, q) for f_ in case["funcs"] for q in sorted(f_.get("bound") or {})]
+                if bfs:
+                    f_b, q_b = bfs[i % len(bfs)]
+                    case3 = {**case, "funcs": [({**f_, "bound": {**f_["bound"], q_b: f"NB{q_b}"}} if f_ is f_b else f_) for f_ in case["funcs"]]}
+                    env3, _ = mapgen.oracle(case3, inputs)
+                    ex = None
+                    try:
+                        with quiet():
+                            p[f_b["outs"][0]].update_bound({q_b: f"NB{q_b}"})
+                            mk3 = dict(mk, run_folder=os.path.join(scratch, f"m3-{i}-{mode}-{ct}"))
+                            if mode == "seq":
+                                res3 = p.map(inputs, parallel=False, **mk3)
+                            else:
+                                ex = ThreadPoolExecutor(3) if mode == "thread" else ProcessPoolExecutor(2, mp_context=ctx)
+                                res3 = p.map(inputs, executor=ex, **mk3)
+                    except Exception as e:  # noqa: BLE001
+                        v.bad(exc_sig(e, f"cached-map-raises-after-update_bound/{mode}/{ct}"), f"cached map after update_bound raised: {exc_msg(e)}", **w)
+                        continue
+                    finally:
+                        if ex is not None:
+                            ex.shutdown(wait=True)
+                    v.count("cached_maps_after_update_bound")
+                    for f in case["funcs"]:
+                        for o in f["outs"]:
+                            if probes.render(res3[o].output) != probes.render(env3[o]):
+                                v.bad(f"cached-map-value-after-update_bound/{mode}/{ct}", f"{o}: a cached map after update_bound({q_b}) of {f_b['name']} "
+                                      "differs from the denotation of the pipeline as it is now", got=probes.render(res3[o].output)[:300],
+                                      expected=probes.render(env3[o])[:300], **w)
+                                break
                 os.unlink(log)
 
 
@@ -570,6 +601,8 @@ def finalize(agg, tier, seed):
         floors.append("fewer than 100 histories with array-valued arguments")
     if c.get("immediate_repeats", 0) < 500:
         floors.append("fewer than 500 immediate repeats")
+    if c.get("cached_maps_after_update_bound", 0) < 30:
+        floors.append(f"only {c.get('cached_maps_after_update_bound', 0)} cached maps after a bound value was changed (< 30)")
     if c.get("map_cache_hits_observed", 0) < 100:
         floors.append("fewer than 100 cache hits observed in map runs")
     return floors, {}
